@@ -361,8 +361,17 @@ func runC03Sibling(c *Ctx) {
 							alt = true
 						}
 					}
+					// alternatives exclude each other: the parser never fills both fields of one node. Where one object gets
+					// both (two key cases of one loop, two stores on one path), the presence of one says nothing about the other
 					if alt {
-						c.ok(construct, h.call.Pos(), "the other outcome scans another field of the same node instead: the two are alternatives")
+						if at := fieldsCoexist(p, h.field, g); at != "" {
+							alt = false
+							c.bad(construct, h.call.Pos(), "the scalar is only scanned when the sibling field "+g+" is absent (or present), but the two are no alternatives: "+at+" fills both on one node, so a placeholder in "+h.field+" goes unchecked for inputs that have both")
+							continue
+						}
+					}
+					if alt {
+						c.ok(construct, h.call.Pos(), "the other outcome scans another field of the same node instead, and no function fills both fields of one node: the two are alternatives")
 					} else {
 						c.bad(construct, h.call.Pos(), "the scalar is only scanned when the sibling field "+g+" is present (or absent), and nothing stands in for it otherwise: a placeholder in it goes unchecked for inputs without (or with) that sibling")
 					}
@@ -374,4 +383,49 @@ func runC03Sibling(c *Ctx) {
 		// nothing on today's tree depends on a sibling: state that as the one obligation
 		c.ok("RuleExpression|no hand-over depends on a sibling field", token.NoPos, "no scanning call with a field of a node is reachable from only one outcome of a nil test of another field of that node")
 	}
+}
+
+// fieldsCoexist: a function of the module stores into both fields ("Type.Field") of the same object, with one store
+// reachable from the other (the same path, or two iterations of one loop). Returns the function, or "".
+func fieldsCoexist(p *Prog, f1, f2 string) string {
+	for _, fn := range p.Funcs {
+		if fn.Blocks == nil || !inModule(fn) {
+			continue
+		}
+		type st struct {
+			base ssa.Value
+			b    *ssa.BasicBlock
+		}
+		var s1, s2 []st
+		eachInstr(fn, func(b *ssa.BasicBlock, _ int, in ssa.Instruction) {
+			sto, ok := in.(*ssa.Store)
+			if !ok {
+				return
+			}
+			fa, ok := sto.Addr.(*ssa.FieldAddr)
+			if !ok {
+				return
+			}
+			if k, isConst := sto.Val.(*ssa.Const); isConst && k.IsNil() {
+				return
+			}
+			switch fieldAddrName(fa) {
+			case f1:
+				s1 = append(s1, st{fa.X, b})
+			case f2:
+				s2 = append(s2, st{fa.X, b})
+			}
+		})
+		for _, a := range s1 {
+			for _, b := range s2 {
+				if a.base != b.base {
+					continue
+				}
+				if a.b == b.b || reachableBlocks([]*ssa.BasicBlock{a.b}, nil)[b.b] || reachableBlocks([]*ssa.BasicBlock{b.b}, nil)[a.b] {
+					return FuncName(fn)
+				}
+			}
+		}
+	}
+	return ""
 }
